@@ -152,7 +152,9 @@ def _judge(ctx, root, case, sign, orig_signed, keyid, hk, top_name, top, h, sign
     try:
         if case['api'] == 'cli':
             from gemato import cli as gcli
-            argv = ['gemato', 'update', '--hashes', 'SHA256 BLAKE2B']
+            argv = ['gemato', case.get('command', 'update'), '--hashes',
+                    'SHA256 BLAKE2B']
+            ctx.count('cli_command:' + case.get('command', 'update'))
             if sign is True:
                 argv.append('-s')
             elif sign is False:
@@ -172,7 +174,13 @@ def _judge(ctx, root, case, sign, orig_signed, keyid, hk, top_name, top, h, sign
             kw = {}
             if case.get('watermark') is not None:
                 kw['compress_watermark'] = case['watermark']
-            m = ManifestRecursiveLoader(top, verify_openpgp=True, openpgp_env=env,
+            if case.get('command') == 'create' and hk != 'late':
+                # what `create` does: allow_create, verification left at its default
+                kw['allow_create'] = True
+                ctx.count('lib_allow_create')
+            else:
+                kw['verify_openpgp'] = True
+            m = ManifestRecursiveLoader(top, openpgp_env=env,
                                         sign_openpgp=sign, openpgp_keyid=kid,
                                         hashes=['SHA256', 'BLAKE2B'], **kw)
             if orig_signed and not m.openpgp_signed:
@@ -346,6 +354,10 @@ def gen_case(rng, root):
         'force': rng.random() < 0.5,
         'watermark': rng.choice([None, None, 0, 10**6]),
     })
+    # `gemato create` run again over the existing tree (the loader is opened with
+    # allow_create): derived, so that the other draws stay what they were
+    case['command'] = 'create' if (len(case['skel']['nodes']) + int(case['force'])) % 3 == 0 \
+        else 'update'
     if case['home'] == 'two':
         case['keyid'] = rng.choice(['default', 'explicit', 'second', 'second', 'wrong'])
     if case['home'] == 'late':
